@@ -35,6 +35,12 @@ CLAIMED = {
         text="Theorems over every header in the legal domain (WF: field widths, versions 1.1-1.4, NUL-free strings up to 32 bytes, any 64-bit patterns for the 12 doubles, any extra header bytes/padding, any well-formed VLR list): the written bytes have exactly version size + extra bytes + 54-byte VLR headers + payloads + padding, that length is the recorded offset to point data, decoding the bytes followed by anything returns every field; a statistics-only update re-encodes to the same length so the same-size guard cannot fire; every civil date 0001-01-01..9999-12-31 survives (case split, no enumeration); every construction/setter/create/convert/writer path ends in the compatibility check, so an ok result is a compatible pair for all versions and formats. The model is compared byte for byte with the real header class on boundary-heavy and damaged headers, every day of many years, and the full API matrix.",
         note="Trusted: Lean kernel; generated sizes/tables and the generated preferred-version function; struct.pack('<d') bit-exactness; datetime.date arithmetic (model validated against it on full years); the point-format / extra-bytes resolution that follows parseHdr in read_from is modelled in the file-level checks, not here. Reading is lenient and never checks compatibility (by design).",
         design="6 (C07)"),
+    "C02": dict(
+        engine="codec",
+        technique="Lean 4 proof that the tables regenerated from the running laspy equal tables transcribed from the ASPRS specification (kernel evaluation), plus layout round-trip theorems for records, signed fields and packed bytes over those tables; two-direction correspondence with an independent decoder/encoder",
+        text="Spec/Asprs.lean holds field tables typed from the specification only (record formats 0-10 with offsets/widths/kinds, bit assignments, header fields per version, VLR/EVLR headers, the 192-byte extra-bytes descriptor, type ids 1-30, option bits, global-encoding bits). Theorems: laspy's generated numpy layout, sizes (20..67), dimension order/types, masks, version table, header sizes and the header model's field widths are equal to them; a decoder over the specification table inverts laspy's record layout for every field content and consumes exactly one record length, and conversely; two's complement is a bijection on each signed range; every combination of sub-field values packs to a byte from which the specification's bit positions recover it (all 256 bytes). Correspondence: laspy assigns through named dimensions and writes, the Lean spec decoder and a separate Python struct decoder read; an encoder over the spec tables writes and laspy presents the same values.",
+        note="Trusted: the hand transcription of the specification (an error there shows as a failed equality unless laspy has the same error); for LAS 1.4 laspy writes the legacy count fields as 0 (allowed when legacy compatibility is not kept) and the spec decoder reads the 1.4 fields. Float fields are compared as bit patterns.",
+        design="6 (C02)"),
 }
 NOT_YET = "check not built yet in this round (planned per DESIGN.md section 10); not claimed until its theorems build and its check is quiet"
 
